@@ -99,6 +99,12 @@ def api_witness(slice_, timeout):
         bad = [v for r in rs for v in (r.resolution or {}).get('values', []) if v.get('type') == 'daterange' and v.get('end') and v['end'] not in str(v.get('timex'))]
         if bad:
             return {'state': 'counterexample', 'cex': {'w': kind}, 'detail': 'range end differs from the end of its TIMEX: %r' % (bad,), 'queries': 1}
+    elif kind in ('F57', 'F58'):
+        from recognizers_number import recognize_number
+        q, c, want = ('1.234 millions', 'fr-fr', '1234000000') if kind == 'F57' else ('7hundert', 'de-de', '700')
+        got = [(r.text, r.resolution.get('value')) for r in recognize_number(q, c)]
+        if got != [(q, want)]:
+            return {'state': 'counterexample', 'cex': {'w': kind}, 'detail': '%r (%s) -> %r, expected value %s' % (q, c, got, want), 'queries': 1}
     elif kind == 'F37-overlap':
         from recognizers_date_time import recognize_datetime
         sp = _spans(recognize_datetime('明天三天后', 'zh-cn', reference=datetime(2016, 11, 7)))
